@@ -123,7 +123,11 @@ def _worker(task):
             out = api.run_native(h, params, pr.inputs)
             ok = True
             why = ""
-            if pr.kind == "return":
+            if out.kind == "assume":
+                # the completed model left the harness's stated assumptions (e.g. two ideal-primitive outputs collide): nothing to compare
+                res["skipped_native"] = res.get("skipped_native", 0) + 1
+                ok = None
+            elif pr.kind == "return":
                 if out.kind != "return":
                     ok, why = False, f"symbolic return vs native {out!r}"
                 elif h.compare_result:
@@ -134,7 +138,9 @@ def _worker(task):
             else:
                 if out.kind != "raise" or _exc_name(out.value) != _exc_name(pr.value):
                     ok, why = False, f"symbolic raise {_exc_name(pr.value)} ({pr.value}) vs native {out!r}"
-            if ok:
+            if ok is None:
+                pass
+            elif ok:
                 res["validated"] += 1
             else:
                 res["mismatches"].append(dict(inputs=compact_inputs(pr.inputs), why=why[:500]))
